@@ -444,10 +444,13 @@ LexPredictedComment(S, T) ==
        ELSE <<TRUE, Emit(ClearCk(r[2]), "COMMENT", "PredictedCommentStat")>>
 
 \* lex_char_format (cursor after '$'): <<lexed?, state>>
+\* $ [name] digits* . digits*  -- the look-ahead runs up to where the '.' must be
 LexCharFormat(S, T) ==
-  LET e == CharFormatEnd(T.cs, T.cc, S.pos)    \* CharFormatEnd takes the 1-based index of '$' = S.pos
-  IN IF e = 0 THEN <<FALSE, [S EXCEPT !.la = TLen(T) + 1]>>
-     ELSE <<TRUE, EmitD(Look([S EXCEPT !.pos = e - 1], e + 1), "CharFormat")>>
+  LET a == IF NsAt(T, S.pos) THEN NameEnd(T.cs, T.cc, S.pos + 2) - 1 ELSE S.pos    \* after the name
+      b == RunEnd(T.cs, a + 1, Digits) - 1                                          \* after the width
+  IN IF ~Is1(T, b, ".") THEN <<FALSE, Look(S, b + 1)>>
+     ELSE LET e == RunEnd(T.cs, b + 2, Digits) - 1 IN
+          <<TRUE, EmitD(Look([S EXCEPT !.pos = e], e + 1), "CharFormat")>>
 
 \* lex_symbols
 LexSymbols(S, T) ==
